@@ -112,6 +112,7 @@ struct ScriptedWrite {
     sched: Vec<i64>,
     next: usize,
     flushes: usize,
+    vectored: bool,   // the writer gathers: a vectored write takes bytes across the buffers offered
 }
 
 impl AsyncWrite for ScriptedWrite {
@@ -126,6 +127,34 @@ impl AsyncWrite for ScriptedWrite {
         self.got.extend_from_slice(&buf[..n]);
         Poll::Ready(Ok(n))
     }
+    fn poll_write_vectored(mut self: Pin<&mut Self>, cx: &mut Context<'_>, bufs: &[std::io::IoSlice<'_>]) -> Poll<std::io::Result<usize>> {
+        if !self.vectored {
+            // like the default: the first non-empty buffer through poll_write
+            let first = bufs.iter().find(|b| !b.is_empty()).map(|b| &**b).unwrap_or(&[]);
+            return self.poll_write(cx, first);
+        }
+        let item = if self.next < self.sched.len() { self.sched[self.next] } else { i64::MAX };
+        self.next += 1;
+        if item == 0 {
+            cx.waker().wake_by_ref();
+            return Poll::Pending;
+        }
+        let total: usize = bufs.iter().map(|b| b.len()).sum();
+        let mut n = (item.max(1) as usize).min(total);
+        let taken = n;
+        for b in bufs {
+            let k = n.min(b.len());
+            self.got.extend_from_slice(&b[..k]);
+            n -= k;
+            if n == 0 {
+                break;
+            }
+        }
+        Poll::Ready(Ok(taken))
+    }
+    fn is_write_vectored(&self) -> bool {
+        self.vectored
+    }
     fn poll_flush(mut self: Pin<&mut Self>, _cx: &mut Context<'_>) -> Poll<std::io::Result<()>> {
         self.flushes += 1;
         Poll::Ready(Ok(()))
@@ -135,9 +164,9 @@ impl AsyncWrite for ScriptedWrite {
     }
 }
 
-fn run_write(msgs: &[Vec<u8>], sched: Vec<i64>, prefix: u64) -> Value {
+fn run_write(msgs: &[Vec<u8>], sched: Vec<i64>, prefix: u64, vectored: bool) -> Value {
     let framer = MessageFramer::new(mode_of(prefix));
-    let mut w = ScriptedWrite { got: Vec::new(), sched, next: 0, flushes: 0 };
+    let mut w = ScriptedWrite { got: Vec::new(), sched, next: 0, flushes: 0, vectored };
     let mut one_shot: Vec<u8> = Vec::new();
     for m in msgs {
         one_shot.extend_from_slice(&framer.frame_message(m));
@@ -175,7 +204,7 @@ pub fn run(args: &[String]) -> i32 {
         let sched: Vec<i64> = r["sched"].as_array().map(|a| a.iter().map(|x| x.as_i64().unwrap_or(0)).collect()).unwrap_or_default();
         let o = if r["kind"].as_str() == Some("write") {
             let msgs: Vec<Vec<u8>> = r["sent"].as_array().map(|a| a.iter().map(bytes_of).collect()).unwrap_or_default();
-            match catch(|| run_write(&msgs, sched, prefix)) {
+            match catch(|| run_write(&msgs, sched, prefix, r["vectored"].as_bool().unwrap_or(false))) {
                 Ok(v) => v,
                 Err(p) => json!({"panic": p}),
             }
